@@ -147,6 +147,22 @@ fn main() {
                 },
                 None => "badval".into(),
             }),
+            // as xdeser, with the minor version in the header (bytes 10..12) replaced: every minor the reader accepts
+            // must be checked as strictly as the current one
+            ["xdeserm", i, j, minor, val] => Some(match parse(val) {
+                Some(t) => match (reg[i.parse::<usize>().unwrap()].ser)(&t) {
+                    Ok((_, mut bytes)) => {
+                        let m: u16 = minor.parse().unwrap();
+                        if bytes.len() >= 12 { bytes[10..12].copy_from_slice(&m.to_ne_bytes()); }
+                        let e = &reg[j.parse::<usize>().unwrap()];
+                        let f_line = match e.full { Some(f) => format!("F {}", f(&bytes)), None => "F -".into() };
+                        let e_line = match e.eps { Some(f) => format!("E {}", f(&bytes, 0)), None => "E -".into() };
+                        format!("xdeser | {} | {}", f_line, e_line)
+                    }
+                    Err(s) => format!("xdeser ser-{}", s),
+                },
+                None => "badval".into(),
+            }),
             ["fromhex", i, r, h] => {
                 let e = &reg[i.parse::<usize>().unwrap()];
                 let bytes = unhex(h);
@@ -162,6 +178,7 @@ fn main() {
                 Some(f) => f(&(if *h == "DIR" { b"<dir>".to_vec() } else { unhex(h) }), loader, reps.parse().unwrap()),
                 None => "badval".into(),
             }),
+            ["dropcheck", loader, n] => Some(epsh::ops::dropcheck(loader, n.parse().unwrap())),
             ["fload", i, loader, h] => Some(match reg[i.parse::<usize>().unwrap()].fload {
                 Some(f) => f(&unhex(h), loader),
                 None => "badval".into(),
